@@ -18,5 +18,8 @@ pub mod x86_model;
 #[cfg(all(kani, feature = "prop_c04"))]
 pub mod c04;
 
+#[cfg(all(kani, feature = "prop_c17"))]
+pub mod c17;
+
 #[cfg(kani)]
 mod playback;
